@@ -254,7 +254,8 @@ def brentsrootvec(f, bounds, tol=None, verbose=False, return_interval=False, acc
     fs = D.ar_numpy.copy(fc)
 
     mflag = D.ar_numpy.ones_like(a, dtype=bool, like=upper_bound)
-    conv[fa * fb >= 0] = False
+    no_bracket = fa * fb >= 0
+    conv[no_bracket] = False
     not_conv = D.ar_numpy.logical_not(conv)
     numiter = D.ar_numpy.ones_like(a, dtype=D.autoray.to_backend_dtype('int64', like=upper_bound), like=upper_bound) * 3
     true_conv = D.ar_numpy.abs(fb) <= tol
@@ -310,7 +311,8 @@ def brentsrootvec(f, bounds, tol=None, verbose=False, return_interval=False, acc
 
         width_conv = D.ar_numpy.abs(b - a) <= tol * D.ar_numpy.maximum(1.0, D.ar_numpy.abs(b))
         conv = D.ar_numpy.logical_not(D.ar_numpy.logical_or(D.ar_numpy.logical_or(fb == 0, fs == 0), width_conv))
-        conv = conv & (numiter <= 128)
+        # a component that never had a sign change over its bracket is not iterated, whatever the function returns for masked entries
+        conv = conv & (numiter <= 128) & D.ar_numpy.logical_not(no_bracket)
         not_conv = D.ar_numpy.logical_not(conv)
         # a root is certified by a vanishing residual or by a sign change over a bracket that has shrunk to the tolerance
         true_conv = (D.ar_numpy.abs(fb) <= tol) | ((D.ar_numpy.sign(fa) * D.ar_numpy.sign(fb) <= 0) & width_conv)
